@@ -29,7 +29,7 @@ func init() {
 }
 
 func checkC01(p *core.Prog, r *core.Report) {
-	r.Explanation = "Decides structural necessary conditions of the capacity bound: (R1/R5) every grant as a new holder (call of LockManager.AddLock) is reached only through the true side of the admission predicate doLock for the same manager and lock, with the shard mutex held continuously from the predicate to the holder-list insert and the depth increment; (R2) every true-returning path of doLock entails locked==0 or locked<=request.Count and locked<=oldest.Count (less-lock-version paths exempt as in the property); (R3) every store to hold-state fields of LockManager/Lock happens with the shard mutex held (interprocedural lock-state, entry state = join over call sites); (R4) after taking a manager's mutex the key is re-checked before any use; (R5) GetOrNewLockManager publishes a fresh manager for a key only after a slow-map lookup of that key on the path or after reading the bucket counter as 0, and inserts into the slow map only inside the write-locked section of its lookup. (R6) RemoveLockManager zeroes the manager's key before returning it to the pool (what makes R4's re-check reject a recycled manager); (R7) SLock.GetOrNewDB publishes a new database only after testing the slot empty under the mutex held at the store. NOT decided: linearizability of the lock-free key table beyond R5 (the CAS protocol on the slot word, retirement races), PriorityMutex lanes, that LockManager.locked equals the number of holders, holding the wrong shard's mutex (one abstract lock per mutex type)."
+	r.Explanation = "Decides structural necessary conditions of the capacity bound: (R1/R5) every grant as a new holder (call of LockManager.AddLock) is reached only through the true side of the admission predicate doLock for the same manager and lock, with the shard mutex held continuously from the predicate to the holder-list insert and the depth increment; (R2) every true-returning path of doLock entails locked==0 or locked<=request.Count and locked<=oldest.Count (less-lock-version paths exempt as in the property); (R3) every store to hold-state fields of LockManager/Lock happens with the shard mutex held (interprocedural lock-state, entry state = join over call sites); (R4) after taking a manager's mutex the key is re-checked before any use; (R5) GetOrNewLockManager publishes a fresh manager for a key only after a slow-map lookup of that key on the path or after reading the bucket counter as 0, and inserts into the slow map only inside the write-locked section of its lookup. (R6) RemoveLockManager zeroes the manager's key before returning it to the pool (what makes R4's re-check reject a recycled manager); (R7) SLock.GetOrNewDB publishes a new database only after testing the slot empty under the mutex held at the store. (R8) a key's fast slot is cleared only after its manager was tombstoned or after it was inserted into the slow map on the same path (a live manager is never in neither table). NOT decided: linearizability of the lock-free key table beyond R5/R8 (the CAS protocol on the slot word, retirement races), PriorityMutex lanes, that LockManager.locked equals the number of holders, holding the wrong shard's mutex (one abstract lock per mutex type)."
 	r.Assumptions = []string{
 		"Go type checker, go/ssa and the VTA call graph are correct for /repo",
 		"all *PriorityMutex values are one abstract lock class (wrong-shard locking is not detected)",
@@ -42,6 +42,7 @@ func checkC01(p *core.Prog, r *core.Report) {
 	c01R5(p, r)
 	c01R6(p, r)
 	c01R7(p, r)
+	c01R8(p, r)
 }
 
 // ---------------------------------------------------------------------------
@@ -692,5 +693,87 @@ func c01R7(p *core.Prog, r *core.Report) {
 	}
 	if n == 0 {
 		r.Fail("C01/R7: no store into SLock.dbs found in GetOrNewDB")
+	}
+}
+
+// ---------------------------------------------------------------------------
+// R8: a live manager is always reachable through one of the two key tables.
+// GetOrNewLockManager builds a fresh manager for a key it finds in neither the
+// fast slot nor the slow map; if a live manager is taken out of its fast slot
+// before it is in the slow map, a concurrent request builds a second manager
+// for the key and both admit holders (two exclusive holders).
+func c01R8(p *core.Prog, r *core.Report) {
+	const rule = "C01/R8"
+	r.Rule(rule, "the fast slot of a key is cleared only after the manager was retired (tombstoned by the reference-count CAS) or after it was inserted into the slow map on the same path", 2)
+	slot := fk("server.FastKeyValue", "manager")
+	n := 0
+	for _, fn := range p.FuncsIn("server") {
+		if fn.Blocks == nil {
+			continue
+		}
+		clears := false
+		for _, b := range fn.Blocks {
+			for _, ins := range b.Instrs {
+				if st, ok := ins.(*ssa.Store); ok {
+					if k, ok := storeKey(st.Addr); ok && k == slot {
+						if c, ok := st.Val.(*ssa.Const); ok && c.Value == nil {
+							clears = true
+						}
+					}
+				}
+			}
+		}
+		if !clears || p.IsNewFunc(fn) {
+			continue // a helper that did not exist at confirmation time is seen inline from its callers
+		}
+		name := core.FuncName(fn)
+		ex := core.NewExplorer(p, core.Hooks{
+			Track: func(x *core.X, a core.Atom) bool {
+				return strings.Contains(core.Plain(a.String()), "CompareAndSwapUint32(")
+			},
+			Instr: func(x *core.X) {
+				if mu, ok := x.Ins.(*ssa.MapUpdate); ok {
+					if strings.HasSuffix(core.Plain(x.Canon(mu.Map).S), ".locks") {
+						x.Set("inSlowMap", core.Plain(x.Canon(mu.Value).S))
+					}
+					return
+				}
+				st, ok := x.Ins.(*ssa.Store)
+				if !ok {
+					return
+				}
+				k, ok := storeKey(st.Addr)
+				if !ok || k != slot {
+					return
+				}
+				if c, ok := st.Val.(*ssa.Const); !ok || c.Value != nil {
+					return
+				}
+				n++
+				key := siteKey(p, x.Ins)
+				retired := false
+				for h := range x.St.Hist {
+					h = core.Plain(h)
+					if strings.HasPrefix(h, "CompareAndSwapUint32(&") && strings.Contains(h, ".refCount,0,4294967295)") && strings.HasSuffix(h, " == true") {
+						retired = true
+					}
+				}
+				switch {
+				case retired:
+					r.Hold(rule, key, x.Pos(), "manager tombstoned before it leaves the table")
+				case x.Get("inSlowMap") != "":
+					r.Hold(rule, key, x.Pos(), "manager "+x.Get("inSlowMap")+" inserted into the slow map first")
+				default:
+					r.Violate(rule, key, x.Pos(), "the key's fast slot is cleared while its manager is still live and not yet in the slow map: in the window the key is in neither table, a concurrent request builds a second manager for it and both admit holders", x.St.Trace)
+				}
+			},
+		})
+		ex.Run(fn, nil)
+		if ex.Imprecise != "" {
+			r.Fail("C01/R8 %s: %s", name, ex.Imprecise)
+		}
+	}
+	if n == 0 {
+		r.Fail("C01/R8: no clearing store of FastKeyValue.manager found")
 	}
 }
